@@ -115,7 +115,7 @@ func genC14(t *Tape) *shScenario {
 	cc := t.Choose(4) // bit0: Close task, bit1: Connect task
 	val := uint16(1000 + t.Choose(1000))
 	many := t.Chance(1, 150)
-	epoch := t.Chance(1, 30000) || forceScenario == "epoch" // a few callers keep one client busy for more than 65536 calls
+	epoch := t.Chance(1, 15000) || forceScenario == "epoch" // a few callers keep one client busy for more than 65536 calls
 	if many {
 		// a crowd of goroutines shares the client: most of them have to wait for their turn at the same time
 		n = []int{33, 65, 66, 70, 129, 130}[t.Choose(6)] + t.Choose(3)
@@ -656,6 +656,9 @@ func runC14(rc *RunCtx) {
 	rc.Nontrivial = true
 	rc.Desc = map[string]any{"client": sc.Kind.String(), "callers": len(sc.Callers), "calls": nops, "close_at": sc.CloseAt.String(), "connect_at": sc.ConnectAt.String(), "device_think_max": sc.DevDelay.String()}
 	rc.Probe(fmt.Sprintf("%s|callers=%d|close=%v|connect=%v", sc.Kind, len(sc.Callers), sc.CloseAt >= 0, sc.ConnectAt >= 0))
+	if sc.Epoch {
+		rc.Probe("three_callers_more_than_65536_calls")
+	}
 	if !rc.Race {
 		nfail, nctx := 0, 0
 		for _, r := range out.Recs {
